@@ -1237,7 +1237,12 @@ func genPrivate(r *Rng, idx int, tier string, step func(op string) string) {
 			do("announce") // the user asks for an announce now (trackers; and the DHT for a torrent that uses it)
 		case roll < 73 && ntrk > 0:
 			do("reload")
-		case roll < 78:
+		case roll < 76 && ntrk > 0 && ntrk < 4 && obsKV(last)["st"] != "Stopped" && obsKV(last)["st"] != "Stopping" && obsKV(last)["st"] != "":
+			// a tracker added by hand to the running torrent: its announcer starts at once and must carry the same
+			// identity (peer id prefix, user agent) as the torrent's other announces
+			do("addtracker")
+			ntrk++
+		case roll < 80:
 			do("stop")
 			for _, p := range dpeers {
 				p.closed = true
@@ -1388,7 +1393,27 @@ func genCrashpoints(r *Rng, idx int, tier string, step func(op string) string) {
 			}
 			crash()
 			do("start")
-		case roll < 52:
+		case roll < 50:
+			// files vanish while the torrent is stopped; the user asks for a verification; the crash comes while the
+			// verifier is held at its first read, after the allocator has created the files again: the bitfield of
+			// before the loss must not be in the resume database any more
+			do("stop")
+			for _, p := range peers {
+				p.closed = true
+				p.pending = nil
+			}
+			do(fmt.Sprintf("mutate file=%s how=delete off=0", r.Pick2("all", fmt.Sprint(r.Intn(len(l.lens))))))
+			held := l.dataBytes() > 0
+			if held {
+				do(fmt.Sprintf("gate kind=%s on=1", l.readGate()))
+			}
+			do("verify hold=1")
+			crash()
+			if held {
+				do(fmt.Sprintf("gate kind=%s on=0", l.readGate()))
+			}
+			crash()
+		case roll < 54:
 			// files vanish while the torrent is stopped; the crash comes right after the restart has found them
 			// missing (and re-created them), before anything else is persisted
 			do("stop")
